@@ -121,7 +121,7 @@ func TestVerif_C22(t *testing.T) {
 		"thorough: every boundary) the on-disk Badger directory is copied as it is at that instant (what a process kill leaves) and a fresh replica is started on the copy: " +
 		"SetupNode must succeed, the graph validator must report 0 invalid entries, a scan must find body/outputs/finalization for every finalized transaction and unique " +
 		"topology positions, and re-feeding the in-flight snapshot must not crash. A second phase finalizes a node pledge, the acceptance of the new node (round zero and one of a new chain) " +
-		"and a node removal with EVERY boundary cut. non-trivial = distinct (call type, boundary index) cuts that were restarted")
+		"and a node removal with EVERY boundary cut; a third phase does the same for a universal mint on a ledger of its own. non-trivial = distinct (call type, boundary index) cuts that were restarted")
 	r.Assume("the copy of the open Badger directory at a quiescent point (single driver goroutine, call boundary) equals what a process kill would leave; torn writes inside one Badger commit are Badger's contract")
 	rng := r.Rand()
 	label := fmt.Sprintf("c22-%d", r.Seed)
@@ -129,7 +129,7 @@ func TestVerif_C22(t *testing.T) {
 	live := filepath.Join(scratch, "live")
 	var px *verifProxy
 	f := verifNewFeed(t, label, 7, rng, live, func(bs *storage.BadgerStore) storage.Store { px = newVerifProxy(bs); return px })
-	defer f.stop()
+	defer func() { f.stop() }()
 	w := verifgen.NewWallet(label, rng, &f.net.Custodian, 5)
 	assets := verifgen.Assets()
 	steps := r.N(40, 300)
@@ -464,7 +464,35 @@ func TestVerif_C22(t *testing.T) {
 	for _, c := range px.calls {
 		types[c.Method]++
 	}
-	r.Note("storage_calls_recorded", len(px.calls))
+	callsFirst := len(px.calls)
+	// Phase 3: a universal mint (own ledger on an epoch five years back, two work days and the round-work / space
+	// aggregation written first, uncut), every boundary of its finalization cut
+	f.stop()
+	live = filepath.Join(scratch, "live-mint")
+	firstFinal = map[crypto.Hash]crypto.Hash{}
+	inflight, inflightTxs, current = nil, nil, nil
+	f = verifNewFeedAt(t, label+"m", 7, rng, live, func(bs *storage.BadgerStore) storage.Store { px = newVerifProxy(bs); return px }, verifMintEpochUnix(), 1707)
+	w = verifgen.NewWallet(label+"m", rng, &f.net.Custodian, 5)
+	tail = false
+	if mc, mtx, mts, err := f.buildMint(w); err != nil {
+		r.Count("mint_not_buildable", 1)
+		t.Logf("mint not buildable: %v", err)
+	} else if s := prepared(mc, mtx, mts); s != nil {
+		px.onCall = onCall
+		tail = true
+		consensusStep("mint", s, []*common.VersionedTransaction{mtx})
+		// and one ordinary snapshot after it
+		dep, _ := w.Deposit(assets[1], big.NewInt(12345))
+		if os2 := prepared(f.net.NodeIds[1], dep, f.tick(uint64(2*time.Second))); os2 != nil {
+			consensusStep("ordinary-after-mint", os2, []*common.VersionedTransaction{dep})
+		}
+	}
+	px.onCall = nil
+	for _, c := range px.calls {
+		types[c.Method]++
+	}
+	_ = callsFirst
+	r.Note("storage_calls_recorded", callsFirst+len(px.calls))
 	r.Note("storage_call_types", types)
 	r.Note("boundaries_cut", cutCount)
 	r.Note("restarts_ok", restarted)
